@@ -43,6 +43,11 @@ func runtimeStackAll(buf []byte) int { return runtime.Stack(buf, true) }
 type appAction struct {
 	sends bool // the action puts a request on the wire (the next item waits for it)
 	f     func(ctx context.Context, e *env) error
+	// loc, for an action that only changes the local state of the extension (it sends
+	// nothing and has returned before the next item is fed): the local state observed
+	// afterwards, given whether the call returned without an error (LocalStates of
+	// tla/PeerInput.tla)
+	loc func(ok bool) string
 }
 
 var errNoConn = errors.New("driver: no accepted IBB stream")
@@ -64,6 +69,11 @@ var appActions = map[string]appAction{
 	// a message sent with a receipt request: the application waits for the receipt
 	"app:rcpt_send": {sends: true, f: func(ctx context.Context, e *env) error {
 		return e.rcptH.SendMessage(ctx, e.s, stanza.Message{ID: "r1", To: peerJID, Type: stanza.ChatMessage}.Wrap(nil))
+	}},
+	// another message with a receipt request sent through the handler (the helper that
+	// shares the handler's table and lock with the peer's receipts)
+	"app:rcpt_elem": {sends: true, f: func(ctx context.Context, e *env) error {
+		return e.rcptH.SendMessageElement(ctx, e.s, nil, stanza.Message{ID: "r2", To: peerJID, Type: stanza.ChatMessage})
 	}},
 	// a room the application joins (and stays in)
 	"app:muc_join": {sends: true, f: func(ctx context.Context, e *env) error {
@@ -95,15 +105,25 @@ var appActions = map[string]appAction{
 		}
 		return ch.Leave(ctx, "bye")
 	}},
-	// the application writes to the accepted stream without flushing: the data is
-	// flushed when the stream is closed
+	// the application writes to the accepted stream, fewer bytes than a block, without
+	// flushing: they stay in the library's write buffer (whatever the carrier) and are
+	// flushed when the stream is closed - by the application or, from inside the serve
+	// loop, by the peer
 	"app:ibb_write": {f: func(ctx context.Context, e *env) error {
 		c := e.firstAccepted(reqWait)
 		if c == nil {
 			return errNoConn
 		}
-		_, err := c.Write([]byte("hello"))
+		n, err := c.Write([]byte("hello"))
+		if err == nil && n != 5 {
+			err = errors.New("driver: short write")
+		}
 		return err
+	}, loc: func(ok bool) string {
+		if ok {
+			return "buffered"
+		}
+		return "clean"
 	}},
 	// the application closes the accepted stream itself
 	"app:ibb_lclose": {sends: true, f: func(ctx context.Context, e *env) error {
